@@ -314,6 +314,70 @@ fn null_grid_and_pipelines(rep: &Report) {
             }
         }
     }
+    // the strip along the outer edge of the half-cell margin (coverage 54..58 N, 8..16 E, margin 0.5 degrees): the
+    // forward look-up succeeds or fails there, and an inverse iterate may step off the grids. Whatever the verdict
+    // for a tuple is, it is the same after a tuple that succeeded and after one that failed, it is honest (counted
+    // means no NaN, not counted means NaN), and a counted tuple is the fully transformed one (equal to the tuple alone)
+    for def in ["gridshift grids=test.datum", "gridshift grids=test.geoid", "gridshift grids=test_subset.datum, test.datum", "deformation grids=test.deformation dt=1"] {
+        let Ok(op) = ctx.op(def) else {
+            rep.violation("grid operator is rejected", json!({"def": def}));
+            continue;
+        };
+        let is_def = def.starts_with("deformation");
+        let mk = |lon: f64, lat: f64| -> C4 {
+            let g = geo(lon, lat, 30., 2010.);
+            if is_def {
+                let c = ref_ellipsoid("GRS80").unwrap().geo_to_cart(g[0], g[1], g[2]);
+                [c[0], c[1], c[2], g[3]]
+            } else {
+                g
+            }
+        };
+        let offs = [-0.02, -0.012, -0.005, -0.001, 0., 0.001, 0.005, 0.012, 0.02];
+        let mut strip: Vec<C4> = Vec::new();
+        for o in offs {
+            for along in [9.3, 12., 15.9] {
+                strip.push(mk(along, 53.5 + o));
+                strip.push(mk(along, 58.5 + o));
+            }
+            for along in [54.2, 55.5, 57.9] {
+                strip.push(mk(7.5 + o, along));
+                strip.push(mk(16.5 + o, along));
+            }
+        }
+        let good = mk(12., 55.);
+        let bad = mk(30., 30.);
+        for dir in [Fwd, Inv] {
+            let dn = if dir == Fwd { "fwd" } else { "inv" };
+            for t in &strip {
+                rep.eval(3);
+                let alone = apply_one(&ctx, op, &dir, *t);
+                let Ok((n1, out1)) = alone else {
+                    rep.violation(&format!("grid operator panics or errs next to the edge of its coverage / {} [{dn}]", def.split(' ').next().unwrap()), json!({"def": def, "input": t, "result": format!("{alone:?}")}));
+                    continue;
+                };
+                let honest = |n: usize, o: &C4| (n == 1 && !o.iter().take(3).any(|v| v.is_nan())) || (n == 0 && o[0].is_nan() && o[1].is_nan());
+                if !honest(n1, &out1) {
+                    rep.violation(&format!("a tuple next to the edge of the coverage is counted though NaN, or failed though not NaN / {} [{dn}]", def.split(' ').next().unwrap()), json!({"def": def, "input": t, "count": n1, "result": format!("{out1:?}")}));
+                    continue;
+                }
+                for (what, first) in [("a tuple that succeeded", good), ("a tuple that failed", bad)] {
+                    let mut d = [Coor4D(first), Coor4D(*t)];
+                    let mut f = [Coor4D(first)];
+                    let again = || if dn == "fwd" { Fwd } else { Inv };
+                    let nf = ctx.apply(op, again(), &mut f).unwrap_or(usize::MAX);
+                    let n = ctx.apply(op, again(), &mut d).unwrap_or(usize::MAX);
+                    if n != nf + n1 || bits4(d[1].0) != bits4(out1) {
+                        rep.violation(
+                            &format!("a tuple next to the edge of the coverage fares differently after {what} / {} [{dn}]", def.split(' ').next().unwrap()),
+                            json!({"def": def, "input": t, "alone": {"count": n1, "result": format!("{out1:?}")}, "in_a_set_of_two": {"count": n, "count_of_the_first_alone": nf, "result": format!("{:?}", d[1].0)}}),
+                        );
+                        break;
+                    }
+                }
+            }
+        }
+    }
     // pipelines with failing steps: the count is the minimum over the steps, failed tuples are NaN
     let cases: [(&str, [C4; 3], usize, [bool; 3]); 6] = [
         ("gridshift grids=test.datum | addone", [inside, outside, inside], 2, [false, true, false]),
